@@ -5,9 +5,11 @@
    move_props of that move on its predecessor, ply indexing returns those positions and an error beyond the
    end; and the rendered move list equals the layout specification spec/TextSpec.movelist for EVERY list of
    move texts and either starting colour (incl. the empty list and Black-first games).
-   Not a theorem yet: that the flags computed by move_props are the rules' capture / check / checkmate of the
-   mailbox spec (rests on the C01/C04/C05 refinement); decided by the differential run (field fl). *)
-Require Import LC.model.Prims LC.model.Board LC.model.Text LC.model.San LC.model.Game LC.spec.TextSpec LC.proofs.C12Proofs LC.proofs.C13Proofs.
+   C13_rule_game: for every game built on a constructed position, after ANY action sequence every recorded move is
+   rule-legal, every recorded position is the rule-defined successor (Chess.apply) of its predecessor, and the recorded
+   per-move flags are exactly the rules' capture / check / checkmate and the standard disambiguation class
+   (SanSpec.spec_props) — by C01–C05, C14. *)
+Require Import LC.model.Prims LC.model.Board LC.model.Text LC.model.San LC.model.Game LC.spec.TextSpec LC.proofs.C12Proofs LC.proofs.C13Proofs LC.proofs.C11Proofs LC.proofs.Reach LC.proofs.C13Flags.
 Open Scope N_scope.
 
 Theorem C13_chain : forall K b g l, game_from_board b = Ok g ->
@@ -31,3 +33,6 @@ Proof. exact history_layout. Qed.
 Theorem C13_rendered_history : forall g p0, hd_error (g_positions g) = Some p0 ->
   history_string g = Ok (movelist (color_eqb (b_stm p0) White) (san_list g)).
 Proof. intros g p0 H. unfold history_string. rewrite H. cbn. now rewrite history_layout. Qed.
+Theorem C13_rule_game : forall K b0 g0 acts, Good K b0 -> game_from_board b0 = Ok g0 -> Forall wf_action acts ->
+  let g := run K g0 acts in RuleChain K (g_positions g) (g_moves g) (g_meta g).
+Proof. exact history_is_rule_game. Qed.
